@@ -120,6 +120,12 @@ class Runner:
         batch = []
         for case in cases:
             res = mod.run_impl(case)
+            if isinstance(res, dict) and res.get("status") == "timeout":
+                # a time-out of the real code is a finding only if it is reproducible (DESIGN §7): run the case once more
+                res2 = mod.run_impl(case)
+                if not (isinstance(res2, dict) and res2.get("status") == "timeout"):
+                    res = res2
+                    self.feature_hist["timeout-not-reproduced"] = self.feature_hist.get("timeout-not-reproduced", 0) + 1
             self.cases.append((case, res))
             for v in safe_oracle(mod, case, res):
                 sig, msg = v
